@@ -167,6 +167,27 @@ def run(ctx):
         ctx.outcome(("diff" if r else "same") + ":ext:" + it[0])
         if r:
             ctx.violation(dict(corpus="external", spicetype=it[0] if "spicetype" in r else "*", params=it[2], what=classify(r)), dict(item=[it[0], list(it[1]), it[2], list(it[3])]), r)
+    # (c2) modules without a Python-module path (defined through exec / a notebook cell / python -c), and nested import paths
+    for variant in ("exec_flat", "exec_hier", "exec_generator"):
+        code = {
+            "exec_flat": "import hdl21 as h\nt = h.Module(name='ExecTop')\nt.s = h.Signal()\nt.r = h.R(r=1)(p=t.s, n=t.s)\n",
+            "exec_hier": "import hdl21 as h\nm = h.Module(name='ExecMod')\nm.p = h.Port(width=2)\nm.r = h.R(r=1)(p=m.p[0], n=m.p[1])\nt = h.Module(name='ExecTop')\nt.s = h.Signal(width=2)\nt.i = m(p=t.s)\nt.j = m(p=h.Concat(t.s[1], t.s[0]))\n",
+            "exec_generator": "import hdl21 as h\n@h.paramclass\nclass P:\n    k = h.Param(dtype=int, desc='k')\n@h.generator\ndef G(p: P) -> h.Module:\n    m = h.Module()\n    m.p = h.Port()\n    m.r = h.R(r=p.k)(p=m.p, n=m.p)\n    return m\nt = h.Module(name='ExecTop')\nt.s = h.Signal()\nt.a = G(k=1)(p=t.s)\nt.b = G(k=2)(p=t.s)\n",
+        }[variant]
+        try:
+            import hdl21 as h
+
+            ns = {}
+            exec(code, ns)
+            pk = h.to_proto(ns["t"], domain="execdom")
+            r = roundtrip(pk)
+        except Exception as e:
+            r = "raised: " + short_exc(e)
+        ctx.count(states=1, transitions=3, traces_validated_against_impl=1)
+        ctx.fam("pathless_modules", packages=1)
+        ctx.outcome(("diff" if r else "same") + ":pathless")
+        if r:
+            ctx.violation(dict(corpus="pathless", variant=variant, what=classify(r)), dict(pathless=variant), r)
     # (d) examples and generators
     for name in ["ro", "rdac", "encoder", "mos_sim", "diff_ota", "idac", "bundles"]:
         try:
